@@ -514,6 +514,9 @@ func (g *FuncGen) resolveModKey(fi *FuncInfo, m string) string {
 	if strings.HasPrefix(m, "$") {
 		return m
 	}
+	if m == "fs" {
+		return "$fs"
+	}
 	parts := strings.Split(m, ".")
 	switch len(parts) {
 	case 2:
